@@ -115,6 +115,13 @@ def extract():
             guarded = guarded and bool(ok)
         f["writerGuarded"] = guarded
         f["binarySends"] = len(cons)
+    # timers: `frame_outbound`, the proxy loop and `write_request` have none; the writer has exactly the three
+    # `timeout_at` of its shutdown drain.  Anything else (a new timeout / sleep / retry arm) -> pessimistic.
+    TIMER = r"tokio::time::timeout\(|\bsleep\(|\btimeout\(|\binterval\(|\bretry"
+    wt = fn_body(srv, "writer_task")
+    if (re.search(TIMER + r"|timeout_at\(|Instant::now|Duration::", fo) or re.search(TIMER + r"|timeout_at\(|Instant::now|Duration::", fn_body(srv, "proxy_connection_with_limits"))
+            or re.search(TIMER, wt) or len(re.findall(r"timeout_at\(", wt)) != 3):
+        f["writerGuarded"] = False
 
     cli = test_mod_cut(strip(read("src/websocket_client.rs")))
     wr = fn_body(cli, "write_request")
@@ -141,7 +148,7 @@ def extract():
     ccons = binary_constructions(cli)
     only_here = len(ccons) == 1 and "write_request(&msg)" in fn_body(cli, "call_with_body_and_timeout") and \
         "write_request(&msg)" in fn_body(cli, "notify_with_builder")
-    f["clientChecksFirst"] = bool(c) and c.start() < s.start() and only_here
+    f["clientChecksFirst"] = bool(c) and c.start() < s.start() and only_here and not re.search(r"\bsleep\(|\btimeout\(|timeout_at\(|\bretry|Duration::", wr)
     # ---- where the limit comes from
     limraw = test_mod_cut(strip(read("src/websocket_limits.rs")))
     def const(name):
